@@ -202,10 +202,12 @@ func runWithPlan(m *cors.Middleware, req Req, plan map[string][]COp, order *[]CO
 			}()
 			select {
 			case res := <-done:
+				c07Landed.Add(1)
 				if o.Kind == "config" {
 					*cfgResults = append(*cfgResults, cfgObs{after: idx - 1, json: res, exact: true})
 				}
-			case <-time.After(time.Second):
+			case <-time.After(c07Grace()):
+				c07Blocked.Add(1)
 				// the operation is blocked by the request in flight (or the machine is overloaded); carry on.
 				// From here on operations may complete out of order, so the schedule is no longer owned.
 				timedOut = true
@@ -227,6 +229,20 @@ func runWithPlan(m *cors.Middleware, req Req, plan map[string][]COp, order *[]CO
 	m.Wrap(sp).ServeHTTP(rec, hr)
 	pending.Wait()
 	return Resp{Status: rec.FinalStatus(), Hdr: rec.Final(), Body: string(rec.Body), Called: sp.called}, timedOut
+}
+
+// c07Blocked / c07Landed count injected operations that did not / did complete within the grace period. An
+// implementation that holds a lock for the whole request makes every injected operation wait for the end of
+// the request; such cases are never judged, and once ten operations have been blocked and they are more than a fifth of all
+// injected operations the grace period shrinks from 1 s to 20 ms so that the run still finishes (the overload
+// false alarm that led to the 1 s grace concerned one operation in tens of thousands).
+var c07Blocked, c07Landed atomic.Int64
+
+func c07Grace() time.Duration {
+	if b := c07Blocked.Load(); b >= 10 && b > c07Landed.Load()/4 {
+		return 20 * time.Millisecond
+	}
+	return time.Second
 }
 
 type cfgObs struct {
